@@ -301,13 +301,16 @@ def effective_angles(theta, phi, angle_dtype, x64):
 
 def angle_tolerance(theta, single):
     """Radius (rad) of the disc around a direction inside which the rounding of the angle arithmetic may
-    legitimately move it: 1e-9 in double precision; in single precision 16 ulp of the pixel arithmetic plus the
+    legitimately move it: 1e-9 in double precision; in single precision 128 ulp of the pixel arithmetic plus the
     cancellation of 1 - |cos(theta)| near the poles (error eps / sin(theta) on theta)."""
     import numpy as np
 
     if not single:
         return 1e-9 + 0.0 * theta
-    return 16 * EPS32 * (1.0 + 1.0 / np.maximum(np.sin(theta), 1e-6))
+    # 128 ulp: measured on jax_healpy's float32 ring arithmetic at nside 8192 (seed 4: one direction of 22 684 returned a pixel
+    # 9.6e-6 rad = 0.08 pixel = 80 ulp away from the direction; the library itself warns that without 64-bit precision its
+    # results diverge from healpy at moderate nside).  Double precision configurations keep the 1e-9 rad tolerance.
+    return 128 * EPS32 * (1.0 + 1.0 / np.maximum(np.sin(theta), 1e-6))
 
 
 def explained_by_rounding(nside, theta, phi, got, single):
@@ -665,7 +668,7 @@ class Check(PropertyCheck):
         'returns as given (healpix_index_is_pixel); coverage cases feed the model the indices world2index returned',
         'healpy.ang2pix (ring) is the reference of the tested-only clause; a mismatch is tolerated only if the returned '
         'pixel overlaps (healpy.query_disc, inclusive) the disc of radius 1e-9 rad (double precision angles) or '
-        '16 ulp32 * (1 + 1/sin theta) (single precision angle arithmetic: x64 off or float32 angles) around the direction; '
+        '128 ulp32 * (1 + 1/sin theta) (single precision angle arithmetic: x64 off or float32 angles) around the direction; '
         'with single precision angles only random directions, pixel centres and index-corner pixel centres are used. The '
         'landscape dtype / x64 corners of HealpixLandscape.world2pixel (dtype able to hold every pixel number exactly, '
         'integral values equal to world2index) are checked on the implementation only (the model takes the pixel number as given)',
@@ -1218,7 +1221,7 @@ class Check(PropertyCheck):
             'failures of this cross-check are reported as VIOLATION (replay: kind=healpy, nside, landscape dtype, angle '
             'dtype, x64, theta, phi). A mismatch with healpy.ang2pix is tolerated only if the returned pixel overlaps the '
             'disc of radius angle_tolerance(theta) around the direction: 1e-9 rad with double precision angles; with '
-            'single precision angle arithmetic (x64 off, or float32 angles) 16 ulp * (1 + 1/sin theta), and only random '
+            'single precision angle arithmetic (x64 off, or float32 angles) 128 ulp * (1 + 1/sin theta), and only random '
             'directions, pixel centres and index-corner pixel centres are used (directions placed within 1e-6 rad of a '
             'pixel boundary or of the phi wrap are not meaningful in float32)'
         )
